@@ -207,4 +207,143 @@ example : toWave .um ⟨[500, 700], [2, 4], .nm, some .wlam⟩ = ⟨[1/2, 7/10],
 example : trapz [500, 700] [2, 4] = 600 ∧ trapz [1/2, 7/10] [2000, 4000] = (600 : ℚ) := by
   constructor <;> norm_num [trapz]
 
+/-! ### `Spectrum.to(*units)` for ARBITRARY argument lists -/
+
+/-- arguments compose: `to(*l₁, *l₂)` is `to(*l₁)` followed — when nothing was refused — by `to(*l₂)`; after a refusal in `l₁`
+the remaining arguments are not looked at and the spectrum stays as the accepted prefix left it -/
+theorem applyTo_append (H C : ℚ) (l₁ l₂ : List String) : ∀ s : USpec, applyTo H C s (l₁ ++ l₂) =
+    (match applyTo H C s l₁ with
+     | (s', none) => applyTo H C s' l₂
+     | (s', some e) => (s', some e)) := by
+  induction l₁ with
+  | nil => intro s; simp [applyTo]
+  | cons u rest ih =>
+    intro s
+    simp only [List.cons_append, applyTo]
+    cases WUnit.ofName? u with
+    | some w => exact ih _
+    | none =>
+      dsimp only
+      cases FUnit.ofName? u with
+      | none => rfl
+      | some f =>
+        dsimp only
+        cases toFlux f H C s with
+        | none => rfl
+        | some s' => exact ih _
+
+/-- any number of wavelength-unit arguments act as the last one alone (n-ary form of `applyTo_wave_last_wins`) -/
+theorem applyTo_waves_last_wins (H C : ℚ) : ∀ (ws : List WUnit) (a : WUnit) (s : USpec),
+    applyTo H C s ((a :: ws).map WUnit.name) = (toWave ((a :: ws).getLast (by simp)) s, none) := by
+  intro ws
+  induction ws with
+  | nil => intro a s; have ha : WUnit.ofName? a.name = some a := by cases a <;> rfl
+           simp [applyTo, ha]
+  | cons b ws ih =>
+    intro a s
+    have ha : WUnit.ofName? a.name = some a := by cases a <;> rfl
+    have := ih b (toWave a s)
+    simp only [List.map_cons, applyTo, ha] at this ⊢
+    rw [this, spectrum_to_wave_cocycle]
+    simp [List.getLast_cons]
+
+/-- an argument that names neither a wavelength unit nor a flux unit is a ValueError wherever it stands in the list; the
+spectrum is left as the arguments before it left it and the arguments after it are ignored -/
+theorem applyTo_unknown_stops (H C : ℚ) (s s' : USpec) (l₁ l₂ : List String) (u : String)
+    (hw : WUnit.ofName? u = none) (hf : FUnit.ofName? u = none) (h : applyTo H C s l₁ = (s', none)) :
+    applyTo H C s (l₁ ++ u :: l₂) = (s', some "ValueError") := by
+  rw [applyTo_append, h]
+  simp [applyTo, hw, hf]
+
+/-- wavelength-unit and flux-unit conversion of a spectrum commute (no hypotheses: the flux conversion is carried out in
+metres whatever the wavelength unit) -/
+theorem spectrum_to_wave_flux_commute (s : USpec) (u : WUnit) (g : FUnit) (H C : ℚ) :
+    toFlux g H C (toWave u s) = (toFlux g H C s).map (toWave u) := by
+  cases hv : s.vu with
+  | none => simp [toFlux_eq, toWave_eq, hv]
+  | some f =>
+    have h1 : (waveTo s.wu u : ℚ) * waveTo u .m = waveTo s.wu .m := waveTo_cocycle _ _ _
+    have h2 : (waveTo .m s.wu : ℚ) * waveTo s.wu u = waveTo .m u := waveTo_cocycle _ _ _
+    simp only [toFlux_eq, toWave_eq, hv, Option.map_some, Option.some.injEq, List.zipWith_map, List.map_zipWith]
+    congr 1
+    congr 1
+    funext v w
+    rw [div_div, mul_assoc, h1, ← h2, div_div]
+
+/-- an argument of `Spectrum.to`: a wavelength unit or a flux unit -/
+abbrev ToArg := WUnit ⊕ FUnit
+def ToArg.name : ToArg → String
+  | .inl w => w.name
+  | .inr f => f.name
+/-- the last wavelength unit among the arguments (`d` if there is none); likewise the last flux unit -/
+def lastW : List ToArg → WUnit → WUnit
+  | [], d => d
+  | .inl w :: l, _ => lastW l w
+  | .inr _ :: l, d => lastW l d
+def lastF : List ToArg → FUnit → FUnit
+  | [], d => d
+  | .inl _ :: l, d => lastF l d
+  | .inr f :: l, _ => lastF l f
+
+/-- NORMAL FORM of `Spectrum.to(*units)` on a per-wavelength density for an arbitrary list of valid unit names, wavelength and flux
+units in any order and number: nothing is refused, and the result is the spectrum converted ONCE to the last flux unit named
+and ONCE to the last wavelength unit named (its own units where none is named) — the order of the arguments and all the
+intermediate conversions do not matter. (Well-formed spectrum with non-zero wavelengths; h, c ≠ 0.) -/
+theorem applyTo_normal_form (H C : ℚ) (hH : H ≠ 0) (hC : C ≠ 0) : ∀ (l : List ToArg) (s : USpec) (f : FUnit),
+    s.vu = some f → s.value.length = s.wave.length → (∀ w ∈ s.wave, w ≠ 0) →
+    ∃ s₁, toFlux (lastF l f) H C s = some s₁ ∧ applyTo H C s (l.map ToArg.name) = (toWave (lastW l s.wu) s₁, none) := by
+  intro l
+  induction l with
+  | nil =>
+    intro s f hf hl hw
+    obtain ⟨s', h1⟩ : ∃ s', toFlux f H C s = some s' := by simp [toFlux_eq, hf]
+    have h2 := spectrum_to_flux_cocycle s s' f f f H C hH hC hf hw h1
+    have h3 := spectrum_to_flux_round_trip s s' s' f f H C hH hC hf hl hw h1 (by rw [h2, h1])
+    refine ⟨s, by simp only [lastF]; rw [h1, h3], ?_⟩
+    have : toWave s.wu s = s := by
+      have := spectrum_to_wave_round_trip s s.wu
+      rwa [spectrum_to_wave_cocycle] at this
+    simp [applyTo, lastW, this]
+  | cons a l ih =>
+    intro s f hf hl hw
+    cases a with
+    | inl a =>
+      have ha : WUnit.ofName? a.name = some a := by cases a <;> rfl
+      have hf' : (toWave a s).vu = some f := by simp [toWave_eq, hf]
+      have hl' : (toWave a s).value.length = (toWave a s).wave.length := by simp [toWave_eq, hf, hl]
+      have hw' : ∀ w ∈ (toWave a s).wave, w ≠ 0 := by
+        simp only [toWave_eq, hf, List.mem_map]
+        rintro w ⟨x, hx, rfl⟩
+        exact mul_ne_zero (hw x hx) (waveTo_ne_zero _ _)
+      obtain ⟨s₁, e1, e2⟩ := ih (toWave a s) f hf' hl' hw'
+      rw [spectrum_to_wave_flux_commute] at e1
+      cases hs : toFlux (lastF l f) H C s with
+      | none => rw [hs] at e1; simp at e1
+      | some s₀ =>
+        rw [hs] at e1
+        simp only [Option.map_some, Option.some.injEq] at e1
+        refine ⟨s₀, by simpa [lastF] using hs, ?_⟩
+        simp only [List.map_cons, ToArg.name, applyTo, ha, lastW]
+        rw [e2, ← e1, spectrum_to_wave_cocycle]
+        simp [toWave_eq, hf]
+    | inr g =>
+      have hg : WUnit.ofName? g.name = none := by cases g <;> rfl
+      have hg' : FUnit.ofName? g.name = some g := by cases g <;> rfl
+      obtain ⟨s', h1⟩ : ∃ s', toFlux g H C s = some s' := by simp [toFlux_eq, hf]
+      have hs' : s'.vu = some g ∧ s'.wave = s.wave ∧ s'.wu = s.wu ∧ s'.value.length = s'.wave.length := by
+        simp only [toFlux_eq, hf, Option.some.injEq] at h1
+        subst h1
+        simp [hl]
+      obtain ⟨s₁, e1, e2⟩ := ih s' g hs'.1 hs'.2.2.2 (by rw [hs'.2.1]; exact hw)
+      rw [spectrum_to_flux_cocycle s s' f g _ H C hH hC hf hw h1] at e1
+      refine ⟨s₁, by simpa [lastF] using e1, ?_⟩
+      simp only [List.map_cons, ToArg.name, applyTo, hg, hg', h1, lastW]
+      rw [e2, hs'.2.2.1]
+
+/-- non-vacuity / instance: `to('um', 'flam', 'nm', 'wlam', 'angstrom')` = flux → wlam once, wavelengths → angstrom once -/
+example (H C : ℚ) (hH : H ≠ 0) (hC : C ≠ 0) (s : USpec) (f : FUnit) (hf : s.vu = some f) (hl : s.value.length = s.wave.length)
+    (hw : ∀ w ∈ s.wave, w ≠ 0) : ∃ s₁, toFlux .wlam H C s = some s₁ ∧
+      applyTo H C s ["um", "flam", "nm", "wlam", "angstrom"] = (toWave .angstrom s₁, none) :=
+  applyTo_normal_form H C hH hC [.inl .um, .inr .flam, .inl .nm, .inr .wlam, .inl .angstrom] s f hf hl hw
+
 end Lentil.C14
